@@ -101,6 +101,9 @@ def anssOps (cfg : ANSSCfg) : SchemeOps where
     pure [tk.li, tk.Ki, tk.liP, tk.KiP]
 
 def sse2Ops (cfg : SSE2Cfg) : SchemeOps where
+  hyps lv key db _ absent := match key with
+    | [K1, _] => SSE2.hypsB cfg lv K1 db absent
+    | _ => false
   keyGen t := do let (a, b, t') ← SSE2.keyGen cfg t; pure ([a, b], t')
   setup lv key db t := do
     match key with
